@@ -74,7 +74,8 @@ class NumEdit(Edit):
         """
         if len(ch) == 1:
             if ch.upper() in self._allowed:
-                return True
+                # the minus sign stays leading: nothing can be typed in front of it
+                return not (self.edit_pos == 0 and self.edit_text.startswith("-"))
 
             return self._allow_negative and ch == "-" and self.edit_pos == 0 and "-" not in self.edit_text
         return False
